@@ -279,8 +279,15 @@ def r2(ctx):
                   ctx.construct(wl, text=f"inplace prepend={prepend}"),
                   f"expected `self._layers = {want.replace('ANY_L', 'layers')}` and `return self`; found {[norm(x)[:100] for r in res for x in stores(r[2], 'self._layers')]}")
     inpl = [o for o in wouts if o.kind == "return" and stores(o.effects, "self._layers")]
-    cached = [o for o in inpl if any(pol and "named_layers" in norm(c) for c, pol in o.conds)]
-    ok = bool(cached) and all(any(isinstance(e, ast.Delete) and "named_layers" in norm(e) for e in o.effects) for o in cached)
+    # on every in-place path the cached value is dropped (`del` under the is-cached test, or an unconditional pop from the
+    # instance dict), unless the path has established that nothing is cached
+    def drops(e):
+        return (isinstance(e, ast.Delete) and any(norm(t) in ("self.named_layers", "self.__dict__['named_layers']") for t in e.targets)) or (
+            isinstance(e, ast.Expr) and sym.pm_any(["self.__dict__.pop('named_layers', ANY_d)", "vars(self).pop('named_layers', ANY_d)"], e.value) is not None)
+    not_cached = lambda o: any((not pol and norm(c) in ("'named_layers' in self.__dict__", "'named_layers' in vars(self)"))
+                               or (pol and norm(c) in ("'named_layers' not in self.__dict__", "'named_layers' not in vars(self)")) for c, pol in o.conds)
+    cached = [o for o in inpl if not not_cached(o)]
+    ok = bool(cached) and all(any(drops(e) for e in o.effects) for o in cached)
     ctx.check(ok, "C19.R2", "with_layers(inplace=True) rebinds the layer list and invalidates the named-layer cache", wl.where,
               ctx.construct(wl, text="inplace"), "expected `del self.named_layers` when it is cached (\"named_layers\" in self.__dict__)")
     for prepend, want in ((True, "LayeredMapping(*[*ANY_L, self], name=name)"), (False, "LayeredMapping(*[self, *ANY_L], name=name)")):
